@@ -221,11 +221,14 @@ impl Host {
             let mut progressed = false;
             let Inner::Direct { roots, model, queue } = &mut self.inner else { unreachable!() };
             let mut effects = vec![];
+            // a task of one command may wake a task of another (task-to-task channels): a pass during
+            // which any traced task ran is followed by another one
+            let before = self.uni.sink.len();
             for c in roots.iter_mut() {
                 effects.extend(c.effects());
                 queue.extend(c.events());
             }
-            if !effects.is_empty() {
+            if !effects.is_empty() || self.uni.sink.len() != before {
                 progressed = true;
             }
             let mut new_roots = vec![];
@@ -876,9 +879,10 @@ pub struct CrossInfo {
 pub fn cross_comparable(u: &Universe) -> bool {
     fn stmts_ok(t: &[Stmt]) -> bool {
         t.iter().all(|s| match s {
-            Stmt::AbortT(_) | Stmt::AbortCmd(_) | Stmt::Export(_) => false,
-            Stmt::StreamLoop(_, b) | Stmt::Spawn(b) => stmts_ok(b),
-            Stmt::JoinN(bs) | Stmt::Select(bs) => bs.iter().all(|b| stmts_ok(b)),
+            // which of several waiting receivers gets a value depends on the order of task polls
+            Stmt::AbortT(_) | Stmt::AbortCmd(_) | Stmt::Export(_) | Stmt::ChanRecv(_) => false,
+            Stmt::StreamLoop(_, b) | Stmt::Spawn(b) | Stmt::Fan(_, b) => stmts_ok(b),
+            Stmt::JoinN(bs) | Stmt::Select(bs) | Stmt::SelectKeep(bs) => bs.iter().all(|b| stmts_ok(b)),
             _ => true,
         })
     }
